@@ -561,6 +561,7 @@ pub fn check_history(sc: &E1Scenario, calls: &[Call], rep: &mut RunReport) {
     let mut last_result: Option<String> = None;
     let mut config: Option<String> = None;
     let c13 = sc.variant == "c13" || sc.variant == "l1" || sc.variant == "l2";
+    let mut fresh_compared = 0;
     for (i, c) in calls.iter().enumerate() {
         // --- oracle 2: reference model on ids
         let slot = op_slot(&c.op);
@@ -692,6 +693,38 @@ pub fn check_history(sc: &E1Scenario, calls: &[Call], rep: &mut RunReport) {
                     (Err(_), 0) => rep.probe("emit_error_agrees"),
                     (Ok(_), _) => rep.violate(&["C13"], "C13.loader-emit-fails", format!("call {i}: emit_js failed ({:?}) where the library resolves and prints", c.resp.result)),
                     (Err(e), _) => rep.violate(&["C13"], "C13.loader-emit-succeeds", format!("call {i}: emit_js succeeded where the library path fails: {e}")),
+                }
+            }
+        }
+        // --- oracle 1b: "its emitted module equals the one a fresh task given the same files
+        // produces" - a fresh instance (other hash seed) is given the task's current files, each
+        // once, root first, and must emit the same module.  (Oracle 1 replays the same calls; this
+        // one forgets the history: re-supplies, their order, failed supplies.)
+        if let (Op::Emit { .. }, Some(m)) = (&c.op, &live_slot) {
+            if fresh_compared < 2 && m.supplied.keys().all(|k| *k == indep::norm(k)) && m.supplied.contains_key(&m.root) {
+                fresh_compared += 1;
+                let mut ops = vec![];
+                if let Some(cfg) = &config {
+                    ops.push(Op::LoadConfig { text: cfg.clone() });
+                }
+                let (rt, ri) = &m.supplied[&m.root];
+                ops.push(Op::Initiate { slot: 0, file: m.root.clone(), src: rt.clone(), imports: ri.clone() });
+                for (name, (text, imports)) in &m.supplied {
+                    if *name != m.root {
+                        ops.push(Op::Load { t: TaskRef::Slot(0), file: name.clone(), src: text.clone(), imports: imports.clone() });
+                    }
+                }
+                ops.push(Op::Emit { t: TaskRef::Slot(0) });
+                let fresh = run_ops_on_fresh(sc.alt_hash_seed ^ 0xf5e5, ops);
+                if let Some(last) = fresh.last() {
+                    rep.probe("emit_compared_with_fresh_task_given_the_same_files");
+                    if last.ret != c.resp.ret || (last.ret == 1 && last.result != c.resp.result) {
+                        rep.violate(
+                            &["C19"],
+                            "C19.1-fresh-task-differs",
+                            format!("call {i}: emit_js of task {} (ret {}) differs from a fresh task that is given the same files once each (ret {}); files {:?}", c.id, c.resp.ret, last.ret, m.supplied.keys().collect::<Vec<_>>()),
+                        );
+                    }
                 }
             }
         }
